@@ -50,7 +50,7 @@ func (World) Assumptions(prop string) []string {
 
 func (World) Rule(prop string) string {
 	if prop == "C09" {
-		return "5-40 blocks over 2-4 accounts with data tries created/modified/removed: block (mutations+Commit) / abort (mutations+RevertToSnapshot(0)) / finalize (real slice queue 0-5) / rollback of the non-final head / block-unblock pruning / restart; knobs: waiting-list cache 1-100, pruning buffer 1-1000, maxTrieLevelInMemory, cache; arms: monotone (every block bumps a nonce: roots never recur) and recurring (tiny value sets); non-trivial = at least one prune was issued after a state change and one rollback or buffered prune happened; distinct = hash of full plan"
+		return "(thorough tier: a third of the runs have 60-160 steps, up to ~100 blocks) 5-40 blocks over 2-4 accounts with data tries created/modified/removed: block (mutations+Commit) / abort (mutations+RevertToSnapshot(0)) / finalize (real slice queue 0-5) / rollback of the non-final head / block-unblock pruning / restart; knobs: waiting-list cache 1-100, pruning buffer 1-1000, maxTrieLevelInMemory, cache; arms: monotone (every block bumps a nonce: roots never recur) and recurring (tiny value sets); non-trivial = at least one prune was issued after a state change and one rollback or buffered prune happened; distinct = hash of full plan"
 	}
 	return "C09 histories (<=25 blocks) plus SnapshotState / SetStateCheckpoint of final roots; background goroutines parked at every main-DB access and advanced by release steps while the driver keeps committing, finalizing (pruning) and rolling back; non-trivial = a snapshot or checkpoint completed and was verified while >=1 commit or prune call happened between its start and its end; distinct = hash of full plan"
 }
